@@ -11,19 +11,20 @@ import (
 
 // Stat collects what one sub-check actually explored in this process.
 type Stat struct {
-	mu       sync.Mutex
-	Prop     string           `json:"property"`
-	Sub      string           `json:"sub"`
-	Evals    int64            `json:"evaluations"`
-	NTCount  int64            `json:"nontrivial"`
-	Classes  map[string]int64 `json:"classes,omitempty"`
-	Excluded map[string]int64 `json:"excluded,omitempty"`
-	Samples  []sample         `json:"samples,omitempty"`
-	Notes    map[string]any   `json:"notes,omitempty"`
-	Exhaust  bool             `json:"exhaustive,omitempty"`
-	HashFile string           `json:"hash_file,omitempty"`
-	salt     uint64
-	hashes   []uint64
+	mu        sync.Mutex
+	Prop      string           `json:"property"`
+	Sub       string           `json:"sub"`
+	Evals     int64            `json:"evaluations"`
+	NTCount   int64            `json:"nontrivial"`
+	Classes   map[string]int64 `json:"classes,omitempty"`
+	Excluded  map[string]int64 `json:"excluded,omitempty"`
+	Samples   []sample         `json:"samples,omitempty"`
+	Notes     map[string]any   `json:"notes,omitempty"`
+	Exhaust   bool             `json:"exhaustive,omitempty"`
+	HashFile  string           `json:"hash_file,omitempty"`
+	salt      uint64
+	hashes    []uint64
+	compactAt int
 }
 
 type sample struct {
@@ -67,8 +68,11 @@ func (s *Stat) NT(h uint64, mk func() any) {
 	defer s.mu.Unlock()
 	s.NTCount++
 	s.hashes = append(s.hashes, h)
-	if len(s.hashes) >= 1<<22 {
+	if len(s.hashes) >= max(1<<22, s.compactAt) {
 		s.compact()
+		// amortise: the next compaction waits until the list has doubled (a shard with more than 2^22 distinct
+		// cases would otherwise sort the whole list again on every single case)
+		s.compactAt = 2 * len(s.hashes)
 	}
 	if mk == nil {
 		return
